@@ -93,11 +93,15 @@ def export_all(item):
         rle.append(bits(r['effective_error']))
     # the stacked (multi-row) call path of logical_errors
     le2 = []
-    step = 1024
-    for a in range(0, N, step):
+    sizes_cycle = [2, 3, 4, 5, 1, 7, 2, 3, 4, 64]     # includes batch size == k
+    a, j = 0, 0
+    while a < N:
+        step = min(sizes_cycle[j % len(sizes_cycle)], N - a)
+        j += 1
         blk = np.asarray(code.logical_errors(E[a:a + step]))
-        blk = blk.reshape(-1, 2 * k) if blk.ndim == 2 else blk.reshape(1, -1)
+        blk = blk.reshape(-1, 2 * k)
         le2 += [bits(row) for row in blk]
+        a += step
     rec.update(mode='all', cs=cs, le=le, le2=le2, ile=ile, suc=suc, rsuc=rsuc,
                rcs=rcs, rle=rle, obs=[])
     rec['_label'] = codes.label(name, size, dname, kw)
@@ -156,6 +160,15 @@ def export_some(item):
         for _ in range(2):
             smask = rng.integers(0, 2, size=H.shape[0])
             ops.append(((((smask @ H) + e0) % 2).astype(np.uint8), base))
+    # stacked calls on the same operators, batch sizes k, k + 1, 2
+    V = np.array([v for v, _ in ops], dtype=np.uint8)
+    stacked = {}
+    for bsz in (max(k, 2), k + 1, 2):
+        for a0 in range(0, len(V) - bsz + 1, bsz):
+            blk = np.asarray(code.logical_errors(V[a0:a0 + bsz])).reshape(-1, 2 * k)
+            for off in range(bsz):
+                stacked.setdefault(a0 + off, []).append(
+                    [int(p) for p in np.nonzero(blk[off])[0]])
     obs = []
     for v, base in ops:
         em.e = v
@@ -168,6 +181,7 @@ def export_some(item):
             'suc': bool(code.is_success(v)),
             'rsuc': bool(r['success']),
             'base': int(base),
+            'le_stacked': stacked.get(len(obs), []),
         })
     rec.update(mode='some', obs=obs, cs=[], le=[], le2=[], ile=[], suc=[],
                rsuc=[], rcs=[], rle=[])
